@@ -19,6 +19,20 @@ CLAIMED = {
         "renderer/projection in vf/checks/c09.py. Controlling expressions are spelled from a fixed table of "
         "integer expressions (expression evaluation itself is C07).",
         "DESIGN.md §C09"),
+    "C10": (
+        "TLA+ spec Traits (C++ special-member / abstract / polymorphic rules as recursive operators over class "
+        "hierarchies built step by step), TLC enumeration with rule-sanity invariants; every hierarchy rendered to C++ "
+        "and judged three ways: g++ SFINAE probes (spec sanity, disagreement = exit 2), interrogate via parse_file -p "
+        "and via the constructor/destructor lists of the -od database",
+        "TLC enumerates every two-class hierarchy and a fixed stratified cut of three-class hierarchies over the "
+        "feature alphabet {ctor forms, =default, =delete, access, const/reference/class-type members, "
+        "virtual/pure/override, virtual bases}; the spec's verdict is validated against g++ on every class, then "
+        "interrogate's judgement and its exported implicit members are compared with it.",
+        "Trusted: TLC, g++ 12 as the authority validating the transcribed rules on every generated class, the "
+        "renderer. Classes whose own destructor is unusable are compared on abstract/polymorphic/destructible only "
+        "(the property's two sentences disagree there); final-overrider subtleties through virtual bases are "
+        "outside the enumerated domain (WFClass).",
+        "DESIGN.md §C10"),
 }
 
 NOT_APPLICABLE = {
